@@ -205,8 +205,21 @@ func (ex *Exec) callCommon(cc *ssa.CallCommon, in *ssa.Call, p token.Pos) *Val {
 	}
 	if isMutexOp(callee) {
 		c.trust("mutex operations are no-ops: reasoning is sequential under the lock")
-		// still a call event for assert-call clauses (e.g. WaitGroup.Add marking "a request was handed to the path")
-		ex.assertCalls(callee.String(), paramNames(callee), ex.argVals(cc), p)
+		// still a call event for assert-call clauses naming it (the arguments are not evaluated otherwise: taking the
+		// address of the mutex field must not count as a write to it)
+		root := ex
+		for root.parent != nil {
+			root = root.parent
+		}
+		if root.ct != nil {
+			for _, a := range root.ct.Asserts {
+				if calleeMatches(callee.String(), a.Name) {
+					ex.assertCalls(callee.String(), paramNames(callee), ex.argVals(cc), p)
+					ex.pendingHavoc = nil
+					break
+				}
+			}
+		}
 		return nil
 	}
 	if r, ok := ex.sortSlice(callee, cc, p); ok {
